@@ -132,6 +132,14 @@ def check(facts, rep, tier, cfg):
         rep.ok("C04.R6", i["key"], i["where"], i["detail"], nontrivial=False)
     for v in sub.violations:
         rep.bad("C04.R6", v["key"].split("/", 1)[1], v["where"], v["msg"])
+    # ---- R7 no credit is consumed without a frame (a leaked credit is never acknowledged: the writer eventually parks for good)
+    rep.rule("C04.R7", "every successful credit take is followed by a Push on every success path (= C03.R7)")
+    sub = type(rep)(rep.prop, rep.tier, rep.config)
+    rules_c03.check_r7(facts, sub, crate, credit_take_bodies(facts, crate))
+    for i in sub.instances:
+        rep.ok("C04.R7", i["key"], i["where"], i["detail"], nontrivial=False)
+    for v in sub.violations:
+        rep.bad("C04.R7", v["key"].split("/", 1)[1], v["where"], v["msg"])
 
 
 def _check_positive(facts, rep, b, bi, s, what):
